@@ -33,4 +33,4 @@ def jobs(tier):
     return J
 
 
-META = {'functions': [], 'undecided_part': '', 'trusted_base': ['fprintf model in harness/c10_output.c (FILE opaque)', 'character-level fprintf model and C-locale isprint in harness/c10_text.c']}
+META = {'functions': ['MIR_output_item', 'MIR_output_str', 'MIR_output_op (float/double/long double arms, sliced)', 'output_func_proto'], 'undecided_part': '', 'trusted_base': ['fprintf model in harness/c10_output.c (FILE opaque)', 'character-level fprintf model and C-locale isprint in harness/c10_text.c']}
